@@ -18,6 +18,9 @@ import (
 	homedir "github.com/mitchellh/go-homedir"
 	"github.com/pgavlin/dawn/diff"
 	"github.com/pgavlin/dawn/label"
+	starlark_os "github.com/pgavlin/dawn/lib/os"
+	starlark_sh "github.com/pgavlin/dawn/lib/sh"
+	starlark_json "go.starlark.net/lib/json"
 	"github.com/pgavlin/dawn/util"
 	"go.starlark.net/starlark"
 	"verif.local/sim/simcheck"
@@ -253,6 +256,9 @@ func (w *world) builtins() starlark.StringDict {
 	return starlark.StringDict{
 		"sim_body":  starlark.NewBuiltin("sim_body", w.simBody),
 		"sim_yield": starlark.NewBuiltin("sim_yield", w.simYield),
+		"json":      starlark_json.Module,
+		"os":        starlark_os.Module,
+		"sh":        starlark_sh.Module,
 	}
 }
 
